@@ -16,7 +16,7 @@ DIMS = [
  ("autouse", ["none", "True", "False"]),
  ("async", ["def", "async def"]),
  ("placement", ["module", "test-class", "plain-class", "nested-in-function"]),
- ("params", ["none", "one", "many", "posonly", "kwonly", "defaults", "annotated", "varargs", "request"]),
+ ("params", ["none", "one", "many", "posonly", "kwonly", "defaults", "annotated", "varargs", "request", "kwonly-default-between-requests", "all-defaulted", "posonly-defaulted"]),
  ("body", ["return", "yield", "yield-in-with", "yield-in-async-with", "yield-in-try", "yield-in-except", "yield-in-else", "yield-in-finally", "yield-in-for", "yield-in-while", "yield-in-if", "yield-in-elif", "x=yield", "yield-from", "yield-in-nested-def", "yield-in-lambda", "try-then-yield", "if-then-yield", "for-then-yield", "while-then-yield", "with-then-yield", "try-finally-then-yield-in-if", "match-then-yield", "yield-in-match", "yield-in-try-star", "yield-in-except-star",
           "yields-in-except-and-else", "yields-in-body-and-except", "yields-in-else-and-finally", "yields-in-if-and-else", "yields-in-for-and-else", "yields-in-while-and-else",
           "yields-in-except-star-and-else", "yields-in-two-handlers", "yields-in-two-cases", "yield-then-yield", "wrapped-assignment-yield", "wrapped-annotated-assignment-yield", "wrapped-return-yield-from", "subscript-target-then-yield", "wrapped-expression-statement-yield",
@@ -29,7 +29,7 @@ DIMS = [
             "indirect-list-name-after-comma-space", "indirect-true-trailing-comma", "indirect-true-argnames-tuple", "indirect-tuple-argnames-list", "indirect-true-argnames-keyword"]),
 ]
 
-PARAMS = ["", "dep_a", "dep_a, dep_b, dep_c", "dep_a, /, dep_b", "dep_a, *, dep_b", "dep_a, dep_b=3", 'dep_a: int, dep_b: "T" = None', "dep_a, *args, **kwargs", "request, dep_a"]
+PARAMS = ["", "dep_a", "dep_a, dep_b, dep_c", "dep_a, /, dep_b", "dep_a, *, dep_b", "dep_a, dep_b=3", 'dep_a: int, dep_b: "T" = None', "dep_a, *args, **kwargs", "request, dep_a", "dep_a, *, dep_b=None, dep_c", "dep_a=1, dep_b=2", "dep_a, dep_b=2, /, dep_c=3"]
 BODIES = [
  ["return 1"], ["yield 1"], ['with open("f") as fh:', "    yield fh"], ["async with ctx() as c:", "    yield c"],
  ["try:", "    yield 1", "finally:", "    pass"], ["try:", "    pass", "except Exception:", "    yield 1"],
